@@ -990,10 +990,35 @@ def ground_concrete_valued_bytes():
     return [(f"valid_jumpdests = JUMPDEST bytes at instruction boundaries up to the first symbolic opcode, on all {n} codes of the family (concrete-valued bytes of symbolic chunks included)", not bad, f"first disagreement (code, representation, got, expected): {str(bad[:1])[:300]}")]
 
 
+def ground_long_code():
+    """nothing about decoding depends on a size limit: for codes longer than the EIP-170 deployment limit (test contracts, init code and etched
+    code are not bound by it) every pc decodes to its own byte, and only a pc at or beyond the end is the implicit STOP"""
+    bad = []
+    for n in (0x5FFF, 0x6000, 0x6001, 0x6005, 0xC008):
+        code = bytearray([0x5B] * n)
+        code[-1] = 0xFE  # INVALID as the last instruction
+        if n > 0x6002:
+            code[0x6001] = 0x60  # PUSH1 beyond 24 KiB ...
+            code[0x6002] = 0x5B  # ... whose operand is not a jump destination
+        c = hc.Contract(bytes(code))
+        for pc in sorted({0, 0x5FFE, 0x5FFF, 0x6000, 0x6001, 0x6003, n - 2, n - 1} & set(range(n))):
+            insn = c.decode_instruction(pc)
+            if insn.opcode != code[pc] or insn.pc != pc:
+                bad.append((hex(n), hex(pc), insn.opcode, code[pc]))
+        for pc in (n, n + 1, n + 0x6000):
+            if c.decode_instruction(pc) is not hc.Instruction.STOP:
+                bad.append((hex(n), hex(pc), "not STOP"))
+        dests = c.valid_jumpdests()
+        want = {i for i in range(n) if code[i] == 0x5B} - ({0x6002} if n > 0x6002 else set())
+        if dests != want:
+            bad.append((hex(n), "jumpdests differ", len(dests ^ want)))
+    return [("codes longer than 24576 bytes: every pc decodes to its own byte, past-the-end is STOP, jump destinations are exact", not bad, str(bad[:3]))]
+
+
 def grounds():
     from pyvc.pack import Ground
 
-    return [Ground(f"{PROP}/contract.Contract.__get_jumpdests#concrete-valued-bytes", ground_concrete_valued_bytes, sources=("halmos.contract:Contract.__get_jumpdests", "halmos.contract:Contract._decode_instruction"))]
+    return [Ground(f"{PROP}/contract.Contract.decode_instruction#long-code", ground_long_code, sources=("halmos.contract:Contract.__init__", "halmos.contract:Contract.decode_instruction")), Ground(f"{PROP}/contract.Contract.__get_jumpdests#concrete-valued-bytes", ground_concrete_valued_bytes, sources=("halmos.contract:Contract.__get_jumpdests", "halmos.contract:Contract._decode_instruction"))]
 
 
 def bounded():
